@@ -11,6 +11,9 @@
   DESIGN.md); the theorem speaks only of bytes below `allocated`, as the property does.
   "Afterwards allocations succeed exactly when they fit the new capacity": the truncated state satisfies the
   concrete invariant with the new capacity, so every per-call theorem (C03, C04, C10) applies to it.
+  `truncate n` is also a call of the universally quantified histories of the unsync flavour (`HOp.truncate`,
+  guards `n + 8192 ≤ 2^32` and `COp.fits`): `truncate_in_history`; the truncated state is `Reachable`, so every
+  theorem about reachable states applies to it and to everything done afterwards.
 -/
 import RarenaVerif.Props.Common
 
@@ -32,6 +35,28 @@ theorem truncate_spec (c : Cfg) (s : St) (free : List Seg) (lives : List Ext) (n
   · exact congrArg A.discarded habs
   · exact congrArg A.minSeg habs
   · rw [hc.sent, h.sent]
+
+/-- `truncate n` as a call of a history (`HOp.truncate`, unsync flavour): from every reachable state it completes and
+    reaches a state — itself reachable, so every property of reachable states (C01 … C20) holds for whatever is done
+    next with the new capacity — with the same handles, capacity `max n allocated`, and everything else unchanged -/
+theorem truncate_in_history (o : Opts) (g : Guards o) (fuel : Nat) (hfuel : o.cap + 2 ≤ fuel) (x : CSess)
+    (hr : Reachable o fuel x) (n : Nat) (hsync : o.sync = false) (hn : n + 8192 ≤ TWO32) (hf : n + 2 ≤ fuel) :
+    ∃ x', cstep o.cfg fuel x (.op (.truncate n)) = .ok x' ∧ Reachable o fuel x' ∧
+      x'.held = x.held ∧ x'.detached = x.detached ∧ x'.st.cap = max n x.st.allocated ∧
+      x'.st.allocated = x.st.allocated ∧ x'.st.discarded = x.st.discarded ∧ x'.st.minSeg = x.st.minSeg ∧
+      x'.st.sentinel = x.st.sentinel ∧ (∀ i, i < x.st.allocated → x'.st.mem.rd i = x.st.mem.rd i) := by
+  obtain ⟨free, lives, ci, _, _⟩ := reachable_cinv o g fuel hfuel x hr
+  have hn' : max n x.st.allocated + 8192 ≤ TWO32 := by
+    have h1 := ci.capGuard
+    have h2 : x.st.allocated ≤ x.st.cap := ci.wf.hi
+    omega
+  obtain ⟨s', e1, hcap, h1, h2, h3, h4, _, hb⟩ := truncate_spec o.cfg x.st free lives n ci o.cfg_ro hn'
+  obtain ⟨x', e, hr'⟩ := reachable_step o g fuel hfuel x hr (.op (.truncate n)) hn ⟨hsync, hf⟩
+  have hx : x' = { x with st := s' } := by
+    simp only [cstep, e1, pure, Except.pure, Except.ok.injEq] at e
+    exact e.symm
+  subst hx
+  exact ⟨_, e, hr', rfl, rfl, hcap, h1, h2, h3, h4, hb⟩
 
 theorem truncate_read_only (c : Cfg) (s : St) (n : Nat) (hro : c.ro = true) : truncate c s n = .error .readOnly :=
   truncate_ro c s n hro
